@@ -65,6 +65,7 @@ def run(ctx: Ctx, extended: bool = False) -> None:
         sched = drv.call("wrappers.gym_schedule", seed=seed, ops=[o for o in script])
         ri = 0
         state = None
+        episode_over = False
         first_episode: List[Any] = []
         replay_episode: List[Any] = []
         reseeded = False
@@ -72,6 +73,7 @@ def run(ctx: Ctx, extended: bool = False) -> None:
             ctx.evaluations += 1
             if op == "reset" or (isinstance(op, dict) and "reset_seed" in op):
                 obs, extras = g.reset() if op == "reset" else g.reset(seed=op["reset_seed"])
+                episode_over = False
                 key = eval_key(sched[ri])
                 ri += 1
                 state, nts = jreset(key)
@@ -100,8 +102,11 @@ def run(ctx: Ctx, extended: bool = False) -> None:
                     ctx.fail(e.cid, "gym_step_relays", "gym step observation/reward differ from the native step", info)
                 if term != want_term or trunc != want_trunc:
                     ctx.fail(e.cid, "gym_flags", f"gym flags (terminated={term}, truncated={trunc}) but native discount=={np.asarray(nts.discount).tolist()}, LAST={want_trunc}", info)
-                if not g.observation_space.contains(obs):
+                # membership is required up to and including the terminal step (C01's quantifier); the script keeps stepping after
+                # LAST only to compare the relay, where e.g. a step counter may legitimately exceed its declared maximum
+                if not episode_over and not g.observation_space.contains(obs):
                     ctx.fail(e.cid, "gym_obs_in_space", "step observation is not in the converted observation space", info, {"cls": e.cls, "phase": "step"})
+                episode_over = episode_over or want_trunc
                 ctx.count(f"gym_step_term={term}_trunc={trunc}")
         # re-seeding with the initial seed reproduces the first reset observation
         if first_episode and replay_episode and not tree_close(first_episode[0][1], replay_episode[0][1]):
